@@ -67,14 +67,6 @@ Qed.
 Lemma VMULS_eq w t u c : VMULS w t u c = vop2 (fun x => x * c) w t (OS u).
 Proof. apply VOPS_eq; [reflexivity|reflexivity]. Qed.
 
-Lemma VDIVS_eq y w t u c : c <> 0 -> VDIVS y w t u c = vdivs y w t (OS u) c.
-Proof.
-  intros Hc. unfold VDIVS, vdivs. destruct (c =? 0) eqn:E; [apply Z.eqb_eq in E; contradiction|].
-  apply VOPS_eq.
-  - intros x. unfold sdiv. rewrite E. reflexivity.
-  - apply Z.quot_0_l; assumption.
-Qed.
-
 Lemma SET_LOOP_eq : forall fuel w t j, SET_LOOP fuel w t j = map2_loop (fun x => x) fuel w t (embJ j).
 Proof.
   induction fuel as [|fu IH]; intros w t j; cbn [SET_LOOP map2_loop]; change (jok (embJ j)) with (jointC_ok j).
@@ -145,7 +137,6 @@ Proof. reflexivity. Qed.
 (* the pairs (and divisors) on which the two members are the same function *)
 Definition vpair_ok (sp : bool) (p : vpair) : Prop :=
   match p with
-  | VPdivS _ _ s => sp = true -> s <> 0
   | VPequals _ _ _ => sp = false
   | _ => True
   end.
@@ -156,7 +147,6 @@ Proof.
   - destruct p; cbn [generic_op ref_ step3 to_op vpair_ok] in *; try reflexivity.
     + now rewrite VOPV_eq.
     + now rewrite VMULS_eq.
-    + rewrite VDIVS_eq; [reflexivity|auto].
     + discriminate.
     + now rewrite SETV_eq.
   - destruct p; cbn [generic_op ref_ step3]; rewrite ?DOP_eq; try reflexivity.
